@@ -226,19 +226,93 @@ def injection(kind, tok):
     raise ValueError(kind)
 
 
-def inject(text, kind, tok):
+# prolog layouts: where the DOCTYPE stands relative to the XML declaration, to other prolog items and to line ends.
+# What a pre-processing step between the zip member and the parser (e.g. __fixXmlPart) could trip over.
+LAYOUTS = ['default', 'oneline', 'pi-after', 'comment-after', 'after-comment', 'bom', 'crlf', 'qgt-in-subset', 'qgt-in-attr']
+
+
+def inject(text, kind, tok, layout='default'):
     dt, tr, ar = injection(kind, tok)
     assert text.startswith(DECL)
-    return DECL + dt + text[len(DECL):].replace(TXT, tr).replace(ATT, ar)
+    decl = DECL.rstrip(u'\n')
+    if layout == 'qgt-in-attr':
+        ar = ar + u'?>'
+    body = text[len(DECL):].replace(TXT, tr).replace(ATT, ar)
+    if layout == 'default':
+        return decl + u'\n' + dt + body
+    if layout in ('oneline', 'qgt-in-attr'):
+        return decl + dt + body
+    if layout == 'pi-after':
+        return decl + dt + u'<?layout keep="yes"?>' + body
+    if layout == 'comment-after':
+        return decl + dt + u'<!-- c ?> -->' + body
+    if layout == 'after-comment':
+        return decl + u'<!-- c ?> <x -->' + dt + body
+    if layout == 'bom':
+        return u'\ufeff' + decl + u'\n' + dt + body
+    if layout == 'crlf':
+        return decl + u'\r\n' + dt + u'\r\n' + body
+    if layout == 'qgt-in-subset':
+        if u'[' in dt:
+            dt = dt.replace(u'[', u'[<?p q?>', 1)
+        elif u'">' in dt:
+            dt = dt.replace(u'">', u'?q=?>">', 1)          # `?>` inside the system literal
+        return decl + dt + u'<?layout keep="yes"?>' + body
+    raise ValueError(layout)
 
 
-def package(target, kind, tok, malformed=False):
+def package(target, kind, tok, malformed=False, layout='default'):
     mem = []
     for name, data in template():
         if name == target:
-            data = (DECL + u'<office:broken <<< ' + data[len(DECL):]) if malformed else inject(data, kind, tok)
+            data = (DECL + u'<office:broken <<< ' + data[len(DECL):]) if malformed else inject(data, kind, tok, layout)
         mem.append((name, data))
     return mem
+
+
+class PrepCheck(object):
+    """the obligation `Prep` of the model on the real code: the text transformers the inventory found between the zip
+    member and the parser (for __loadxmlparts: __fixXmlPart) must return everything before the root element character
+    for character (and, the template declaring every prefix they look for, the whole text)"""
+    def __init__(self, chk, inv):
+        import odf.opendocument as od
+        self.chk = chk
+        self.fns = []
+        self.seen = set()
+        self.bad = 0
+        for s_ in inv['sites']:
+            if s_['library'] and s_['prep_names'] and s_['file'] == 'odf/opendocument.py':
+                for n in s_['prep_names']:
+                    f = od.__dict__.get(n)
+                    if callable(f):
+                        self.fns.append((n, f))
+                    else:
+                        chk.corr_diff({'transformer': n}, 'not found in odf.opendocument', 'a module-level function',
+                                      'text pre-processing named by the inventory cannot be exercised')
+
+    def check(self, case, member, text):
+        if member == MANIFEST or not self.fns:
+            return
+        key = hash(text)
+        if key in self.seen:
+            return
+        self.seen.add(key)
+        out = text
+        try:
+            for n, f in self.fns:
+                out = f(out)
+        except Exception as e:      # noqa
+            out = u'raised %r' % (e,)
+        self.chk.corr()
+        self.chk.count('prep-text')
+        root = text.index(u'<office:document-')
+        prolog = text[:root]
+        if out[:len(prolog)] != prolog or out != text:
+            self.bad += 1
+            i = next((j for j in range(min(len(out), len(text))) if out[j] != text[j]), min(len(out), len(text)))
+            self.chk.corr_diff(case, out[max(0, i - 40):i + 80], text[max(0, i - 40):i + 80],
+                               'text pre-processing (%s) must hand the member on with its prolog (DOCTYPE) unchanged; first '
+                               'difference at character %d, prolog is %d characters' % ('+'.join(n for n, _ in self.fns), i, len(prolog)))
 
 
 # --------------------------------------------------------------------------------------------------
@@ -509,8 +583,12 @@ def run_paths(chk, drv, numbers):
         shutil.rmtree(tmp, ignore_errors=True)
 
 
-def run_matrix(chk, drv=None, verbose=False, only=None):
-    """the complete fault matrix; returns the table {(ep, member, kind): observation}"""
+LAYOUT_EPS = ['load', 'manifestlist', 'UserFields.list_fields', 'ODF2XHTML.odf2xhtml', 'ODF2MoinMoin']
+
+
+def run_matrix(chk, drv=None, verbose=False, only=None, prep=None):
+    """the complete fault matrix (default layout: every cell; other prolog layouts: every cell whose member the entry
+    point parses); returns the table {(ep, member, kind, layout): observation}"""
     watch = Watch.install()
     tmp = tempfile.mkdtemp(prefix='c13-')
     table = {}
@@ -546,19 +624,46 @@ def run_matrix(chk, drv=None, verbose=False, only=None):
                 model = sorted(dec_str(w) for w in ans.split()[1:]) if ans.startswith('ok') else ans
                 if model != sorted(real):
                     chk.corr_diff({'ep': ep}, sorted(real), model, 'set of XML members the entry point parses')
+        # ---------------- controls in the other layouts (parsed members only)
+        lay_eps = EPS if chk.tier == 'thorough' else LAYOUT_EPS
+        if not only:
+            for layout in LAYOUTS[1:]:
+                for ep in lay_eps:
+                    for m in XML_MEMBERS:
+                        if not parsed[(ep, m)]:
+                            continue
+                        for k in CONTROLS:
+                            mem = package(m, k, tok, layout=layout)
+                            if prep is not None:
+                                prep.check({'ep': ep, 'member': m, 'kind': k, 'layout': layout}, m, dict(mem)[m])
+                            o = observe(ep, build(mem), tok, watch)
+                            chk.count('control.layout')
+                            if cls(o) != 'clean':
+                                chk.corr_diff({'ep': ep, 'member': m, 'kind': k, 'layout': layout}, cls(o) + ' ' + str(o['exc']), 'clean',
+                                              'a package without entity declarations must be read normally in every prolog layout')
         # ---------------- the matrix
         lines = []
         cells = []
-        for ep in EPS:
-            for m in XML_MEMBERS:
-                for k in KINDS:
-                    if only and (ep, m, k) != only:
+        for layout in LAYOUTS:
+            for ep in (EPS if layout == 'default' else lay_eps):
+                for m in XML_MEMBERS:
+                    if layout != 'default' and not parsed[(ep, m)]:
                         continue
-                    cells.append((ep, m, k))
-                    lines.append('read %d %s %d %d %s' % ((EP_CODE[ep], enc_str(m)) + KIND_FLAGS[k] + (pkgargs,)))
+                    for k in KINDS:
+                        if only and (ep, m, k, layout) != only:
+                            continue
+                        cells.append((ep, m, k, layout))
+                        lines.append('read %d %s %d %d %s' % ((EP_CODE[ep], enc_str(m)) + KIND_FLAGS[k] + (pkgargs,)))
+        if only and not cells:
+            cells.append(only)
+            lines.append('read %d %s %d %d %s' % ((EP_CODE[only[0]], enc_str(only[1])) + KIND_FLAGS[only[2]] + (pkgargs,)))
         answers = drv.batch(lines) if drv is not None else [None] * len(cells)
-        for (ep, m, k), ans in zip(cells, answers):
-            raw = build(package(m, k, tok))
+        for (ep, m, k, layout), ans in zip(cells, answers):
+            mem = package(m, k, tok, layout=layout)
+            case = {'ep': ep, 'member': m, 'kind': k, 'layout': layout}
+            if prep is not None:
+                prep.check(case, m, dict(mem)[m])
+            raw = build(mem)
             as_path = None
             if ep in ('load', 'odfmanifest', 'ODF2MoinMoin') and k in ('ent-text', 'ext-general-file'):
                 as_path = os.path.join(tok.docdir, 'doc.odt')         # also exercise the file-name form of the argument
@@ -567,18 +672,18 @@ def run_matrix(chk, drv=None, verbose=False, only=None):
                     f.write(raw)
                 watch.own = False
             o = observe(ep, raw, tok, watch, as_path)
-            table[(ep, m, k)] = o
+            table[(ep, m, k, layout)] = o
             part, where = member_class(m)
             c = cls(o)
             chk.count('cell')
+            chk.count('layout.' + layout)
             chk.count('cell.' + c + ('' if parsed[(ep, m)] else '.member-not-parsed'))
-            chk.case((ep, m, k), nontrivial=parsed[(ep, m)],
-                     sample={'ep': ep, 'member': m, 'kind': k, 'observed': c, 'exception': o['defused'] or o['exc']}
-                     if (len(chk.samples) < 8 and chk.rng.random() < 0.02) else None)
-            case = {'ep': ep, 'member': m, 'kind': k}
+            chk.case((ep, m, k, layout), nontrivial=parsed[(ep, m)],
+                     sample={'ep': ep, 'member': m, 'kind': k, 'layout': layout, 'observed': c, 'exception': o['defused'] or o['exc']}
+                     if (len(chk.samples) < 8 and chk.rng.random() < 0.004) else None)
             sig = '%s:%s@%s:%s' % (ep, part, where, KIND_CLASS[k])
             if verbose:
-                print('%-24s %-30s %-22s %-10s parsed=%d %s %s' % (ep, m, k, c, parsed[(ep, m)], o['defused'] or o['exc'], o['touched'][:1]))
+                print('%-24s %-30s %-22s %-10s parsed=%d %s %s' % (ep, m, k + '/' + layout, c, parsed[(ep, m)], o['defused'] or o['exc'], o['touched'][:1]))
             # -- oracle (property text)
             if o['expanded'] or o['canary']:
                 report(chk, sig, case, 'the result contains the %s' % ('expanded entity text' if o['expanded'] else 'content of the canary file'))
@@ -650,7 +755,7 @@ def run(chk, replay=None):
         return 0 if (cls(o) == 'forbidden' and not o['touched']) else 1
     if replay is not None:
         c = replay['input']
-        tbl = run_matrix(chk, None, verbose=True, only=(c['ep'], c['member'], c['kind']))
+        tbl = run_matrix(chk, None, verbose=True, only=(c['ep'], c['member'], c['kind'], c.get('layout', 'default')))
         bad = bool(chk.failures) or bool(chk.known_hits)
         print('replay: %s -> %s' % (c, {k: v for k, v in list(tbl.values())[0].items()} if tbl else 'cell not found'))
         return 1 if bad else 0
@@ -680,6 +785,10 @@ def run(chk, replay=None):
                          '; '.join('%s:%d %s' % (s['file'], s['line'], s['callee_path']) for s in scripts_plain))
     # 3+4 correspondence and oracle: the fault matrix
     drv = chk.driver('drv_entity')
-    run_matrix(chk, drv)
+    prep = PrepCheck(chk, inv)
+    run_matrix(chk, drv, prep=prep)
+    chk.assumptions.append('C13: the text pre-processing in front of the SAX parser (__fixXmlPart) preserves the DOCTYPE: hypothesis `Prep` '
+                           'of the refusal theorems, validated on every member text of the fault matrix (%d distinct texts, every '
+                           'injection kind x prolog layout)' % len(prep.seen))
     run_paths(chk, drv, range(2, 100) if chk.tier == 'thorough' else sorted(chk.rng.sample(range(2, 100), 12)))
     return chk.finish()
